@@ -190,25 +190,25 @@ ASSUME_ALLOC = ['A1: the installed allocator returns a unique non-NULL pointer f
 PROPS = {
     'C03': dict(level='exploration', phases=[('asan', None, 60000, 600000)],
                 rule='one evaluation = one seeded construction history (W1) whose root handles are serialised and round-tripped; non-trivial = at least one root with a container or chunked string was compared byte-for-byte with the reference encoder and re-loaded; distinct = distinct plan digests'),
-    'C04': dict(level='exploration', phases=[('asan', None, 60000, 600000)],
+    'C04': dict(level='exploration', phases=[('asan', None, 120000, 1200000)],
                 rule='one evaluation = one seeded API history (W1) checked against the shadow ownership graph after every step; non-trivial = the history shared at least one item between two owners and released at least one item; distinct = distinct plan digests'),
     'C05': dict(level='fault_enumeration', phases=[('asan', None, 30000, 300000), ('asan', 3, 15000, 100000)],
                 rule='one evaluation = one CBOR sequence delivered over a fragmenting, closing connection to a cbor_load receiver (every retry checked), or one load scenario swept over every refused allocation k; non-trivial = at least one failing cbor_load call was observed and checked (NOTENOUGHDATA, MEMERROR, or a hard error); distinct = distinct plan digests'),
-    'C06': dict(level='fault_enumeration', phases=[('asan', None, 12000, 120000)],
+    'C06': dict(level='fault_enumeration', phases=[('asan', None, 40000, 300000)],
                 rule='one evaluation = one scenario (state built by a W1 prefix, one target operation) re-run once per refused allocation index k and once per fail-stop index k; non-trivial = the fault-free run made N>=1 requests and at least one injected refusal fired; distinct = distinct plan digests'),
-    'C08': dict(level='exploration', phases=[('asan', None, 60000, 600000)],
+    'C08': dict(level='exploration', phases=[('asan', None, 300000, 3000000)],
                 rule='one evaluation = one multi-connection streaming run; every cbor_stream_decode call in it is checked against the reference tokeniser; non-trivial = at least one fragment was delivered and decoded; distinct = distinct plan digests'),
-    'C09': dict(level='exploration', phases=[('asan', None, 60000, 600000)],
+    'C09': dict(level='exploration', phases=[('asan', None, 300000, 3000000)],
                 rule='one evaluation = one (streams, fragmentations, delivery schedule) plan run through the documented client; non-trivial = some connection received >= 2 fragments and at least one NEDATA wait happened; distinct = distinct plan digests'),
-    'C11': dict(level='exploration', phases=[('asan', None, 50000, 500000)],
+    'C11': dict(level='exploration', phases=[('asan', None, 150000, 1500000)],
                 rule='one evaluation = one W1 history with cbor_copy weighted up, followed by diverging mutations/releases on source and copy; non-trivial = at least one copy of a tree with >= 2 nodes was taken and both trees were later modified or released; distinct = distinct plan digests'),
     'C12': dict(level='exploration', phases=[('asan', None, 40000, 400000)],
                 rule='one evaluation = one container operation history compared step by step with the list model; non-trivial = at least one refused operation (capacity or index) and one accepted insertion occurred; distinct = distinct plan digests'),
-    'C13': dict(level='exploration', phases=[('asan', None, 50000, 500000)],
+    'C13': dict(level='exploration', phases=[('asan', None, 80000, 800000)],
                 rule='one evaluation = one W1 history or W3 stream run under a PRNG-chosen allocator configuration (direct / tagging / arena; realloc moving or not; faults on or off) with libc allocator entry points of the library objects trapped at link time; non-trivial = the library made >= 1 request through the installed allocator and released >= 1 block; distinct = distinct plan digests'),
-    'C14': dict(level='exploration', phases=[('asan', None, 60000, 500000)],
+    'C14': dict(level='exploration', phases=[('asan', None, 100000, 1000000)],
                 rule='one evaluation = one CBOR sequence (items + tail) delivered in fragments to a cbor_load sequence receiver that retries on NOTENOUGHDATA and scribbles consumed bytes; non-trivial = >= 2 items were received and at least one item was decoded with a non-empty suffix behind it; distinct = distinct plan digests'),
-    'C17': dict(level='exploration', phases=[('plainO2', None, 2500, 30000), ('tsan', None, 2500, 30000)],
+    'C17': dict(level='exploration', phases=[('plainO2', None, 5000, 50000), ('tsan', None, 4000, 40000)],
                 rule='one evaluation = one multi-task plan (2-16 real threads, each with its own workload) first run solo per task, then under the seeded scheduler with a choice at every allocator call, streaming callback and describe write; non-trivial = at least one pre-emption happened inside a library call; distinct = distinct schedule hashes'),
     'C18': dict(level='exploration', phases=[('plainO2', None, 15000, 150000), ('plainO0', None, 15000, 150000), ('tsan', None, 1500, 15000)],
                 rule='one evaluation = one tree built inside the arena, write-protected, then inspected with every read-only operation on every node (or read concurrently by 2-8 threads under TSan); non-trivial = the tree has >= 2 nodes and >= 10 read-only calls ran under protection; distinct = distinct plan digests'),
